@@ -383,13 +383,16 @@ def e2fsck(img, mode, workdir, tag="fsck", clock=1500001000, rand_seed=3, faults
     r = run_sim([tool("e2fsck")] + list(mode) + list(extra) + [img], pl, workdir, tag=tag, env=env,
                 keep_log=keep_log, cpu_s=cpu_s)
     codes = []
+    r.problem_records = []      # (code, answered yes, object = (ino, dir, blk, blkcount, group)) per logged problem
     if plog and os.path.exists(plog):
         data = open(plog, "rb").read()
-        for m in re.finditer(rb'<problem code="(0x[0-9a-fA-F]+)"', data):
+        for m in re.finditer(rb'<problem code="(0x[0-9a-fA-F]+)" answer="(-?\d+)"([^>]*)/>', data):
             c = int(m.group(1), 16)
             if c in NOT_PROBLEMS:
                 continue
             codes.append(c)
+            at = dict((k.decode(), v.decode("latin1")) for k, v in re.findall(rb' (\w+)="([^"]*)"', m.group(3)))
+            r.problem_records.append((c, int(m.group(2)) > 0, tuple(at.get(k, "") for k in ("ino", "dir", "blk", "blkcount", "group"))))
         os.unlink(plog)
     return r, codes
 
